@@ -137,9 +137,14 @@ class SeqWorld:
                 world.ev(ev='start_e', ok=ok)
                 world.last_ok = ok
 
-        # the idle-status hook is readHwStatus() (documented); a module that only defines _ext_state() has no hook
+        # hook 'hw': the module implements the idle-status hook that the class docstring of SequencerMixin tells it
+        # to implement ('.. method:: readHwStatus()') - it has to be honoured; hook 'ext': the module only defines
+        # _ext_state(), a name that is not (no longer) documented as a hook - it has no hook
         if hook != 'none':
-            setattr(SeqMod, {'hw': 'readHwStatus', 'ext': '_ext_state'}[hook], lambda self: (self.Status.WARN, 'hook'))
+            m = re.search(r'\.\. method:: (\w+)\(\)', fs.SequencerMixin.__doc__ or '')
+            documented = m.group(1) if m else 'readHwStatus'
+            other = '_ext_state' if documented != '_ext_state' else 'readHwStatus_'
+            setattr(SeqMod, documented if hook == 'hw' else other, lambda self: (self.Status.WARN, 'hook'))
         self.cls = SeqMod
         self.last_ok = None
 
